@@ -1,6 +1,7 @@
 //! vh - the in-process conformance harness. One binary, one sub-command per binding.
 mod mangle;
 mod pos;
+mod sema;
 mod sp;
 mod term;
 
@@ -14,6 +15,7 @@ fn main() {
     let rc = match args[1].as_str() {
         "mangle" => mangle::run(rest),
         "position" => pos::run(rest),
+        "sema" => sema::run(rest),
         "sp-replay" => sp::replay(rest),
         "sp-random" => sp::random(rest),
         "term-replay" => term::replay(rest),
